@@ -566,6 +566,13 @@ func (p *bndProver) executedFacts() {
 			if ins == p.at {
 				break
 			}
+			// Within one statement the order of index operations relative to function calls is
+			// not fixed by the language (the compiler evaluates the operands that contain calls
+			// first), so "came earlier in go/ssa's order" is evidence only across statements, or
+			// within a statement without calls.
+			if sameStmtWithCall(p.c, ins.Pos(), p.at.Pos()) {
+				continue
+			}
 			switch v := ins.(type) {
 			case *ssa.IndexAddr:
 				p.inRange(v.Index, v.X)
@@ -591,6 +598,80 @@ func (p *bndProver) executedFacts() {
 			}
 		}
 	}
+}
+
+// sameStmtWithCall: both positions lie in the same simple statement (or the same condition/tag
+// expression of a compound one) and that unit contains a function call.
+var stmtUnitCache = map[token.Pos]ast.Node{}
+
+func stmtUnitAt(c *Ctx, pos token.Pos) ast.Node {
+	if !pos.IsValid() || c == nil {
+		return nil
+	}
+	if u, ok := stmtUnitCache[pos]; ok {
+		return u
+	}
+	var unit ast.Node
+	for _, pkg := range c.W.All {
+		for _, file := range pkg.Syntax {
+			if file.Pos() <= pos && pos < file.End() {
+				path, _ := astutil.PathEnclosingInterval(file, pos, pos)
+				for i, n := range path {
+					st, isStmt := n.(ast.Stmt)
+					if !isStmt {
+						continue
+					}
+					switch st.(type) {
+					case *ast.IfStmt, *ast.ForStmt, *ast.SwitchStmt, *ast.TypeSwitchStmt, *ast.RangeStmt, *ast.SelectStmt, *ast.BlockStmt, *ast.CaseClause, *ast.CommClause, *ast.LabeledStmt:
+						// the child on the path (condition, tag, range operand) is the unit
+						if i > 0 {
+							unit = path[i-1]
+						}
+					default:
+						unit = st
+					}
+					break
+				}
+			}
+		}
+	}
+	stmtUnitCache[pos] = unit
+	return unit
+}
+
+var unitHasCallCache = map[ast.Node]bool{}
+
+func sameStmtWithCall(c *Ctx, a, b token.Pos) bool {
+	ua := stmtUnitAt(c, a)
+	if ua == nil || ua != stmtUnitAt(c, b) {
+		return false
+	}
+	if v, ok := unitHasCallCache[ua]; ok {
+		return v
+	}
+	has := false
+	ast.Inspect(ua, func(n ast.Node) bool {
+		if _, isLit := n.(*ast.FuncLit); isLit {
+			return false
+		}
+		if call, ok := n.(*ast.CallExpr); ok {
+			isConvOrBuiltin := false
+			for _, pkg := range c.W.All {
+				if tv, ok := pkg.TypesInfo.Types[call.Fun]; ok {
+					if tv.IsType() || tv.IsBuiltin() {
+						isConvOrBuiltin = true
+					}
+					break
+				}
+			}
+			if !isConvOrBuiltin {
+				has = true
+			}
+		}
+		return !has
+	})
+	unitHasCallCache[ua] = has
+	return has
 }
 
 func (p *bndProver) inRange(idx, x ssa.Value) {
@@ -1546,7 +1627,7 @@ func runBND(c *Ctx, r *Result, rule string, fns []*ssa.Function, reach *Reach, r
 		f, s, missing := p.f, p.s, p.missing
 		full := p.key.String()
 		if os.Getenv("VERIF_BND_KEYS") != "" {
-			fmt.Printf("BNDKEY\t%s\t%s\n", p.oldKey, full)
+			fmt.Printf("BNDKEY\t%s\t%s\tmissing=%v\n", p.oldKey, full, p.missing)
 		}
 		o := Obligation{Rule: rule, Key: full, Fn: shortFn(f), Pos: c.W.Pos(s.ins.Pos()), Nontrivial: true}
 		var exc bndException
